@@ -9,6 +9,7 @@ package props
 // DNS for hostnames. Only an observed connection/datagram at a sink is a violation.
 
 import (
+	"bytes"
 	"context"
 	"fmt"
 	"net"
@@ -679,5 +680,123 @@ func runC05UDP(c C05E2E, info *kit.Info) *kit.Finding {
 
 func TestC05_UDP(t *testing.T) {
 	p := kit.Prop[C05E2E]{ID: "C05", Name: "UDP", Quick: 6000, Thorough: 600000, Gen: genC05E2E, Run: runC05UDP}
+	p.Execute(t)
+}
+
+// ---- one handler, several sockets --------------------------------------------------------------
+// A service's packet handler serves all of its UDP listeners at once (one Handle loop per socket). The
+// destination policy must hold for every datagram of every loop, whatever the other loops are doing:
+// a refused destination never receives anything, an allowed one only what was sent to it.
+
+type C05Shared struct {
+	Cipher    string `json:"cipher"`
+	Listeners int    `json:"listeners"`
+	PerClient int    `json:"per_client"`
+	V6        bool   `json:"v6_allowed_target"`
+	Seed      int64  `json:"seed"`
+}
+
+func genC05Shared(t *rapid.T) C05Shared {
+	return C05Shared{Cipher: rapid.SampledFrom(kit.AllCiphers).Draw(t, "cipher"), Listeners: rapid.IntRange(2, 4).Draw(t, "listeners"),
+		PerClient: rapid.IntRange(200, 3000).Draw(t, "per"), V6: rapid.Bool().Draw(t, "v6"), Seed: rapid.Int64Range(1, 1<<40).Draw(t, "seed")}
+}
+
+func runC05Shared(c C05Shared, info *kit.Info) *kit.Finding {
+	ks := kit.KeySpec{ID: "user", Cipher: c.Cipher, Secret: "shared-handler"}
+	key := ks.Key()
+	ph := service.NewPacketHandler(30*time.Second, kit.NewCipherList([]kit.KeySpec{ks}), &kit.RecService{}, nil)
+	ph.SetTargetIPValidator(permitAllBut66)
+	allowedIP := "127.0.0.1"
+	if c.V6 && kit.HaveAddr("::1") {
+		allowedIP = "::1"
+	}
+	allowed, err := kit.NewUDPPeer(allowedIP, 0)
+	if err != nil {
+		info.Skipped = err.Error()
+		return nil
+	}
+	defer allowed.Close()
+	// the refused destination listens on the same port as the allowed one where it can, so that an address
+	// assembled from two datagrams' parts is also a live socket
+	refused, err := kit.NewUDPPeer(forbiddenTargetIP, allowed.Addr.Port)
+	if err != nil {
+		if refused, err = kit.NewUDPPeer(forbiddenTargetIP, 0); err != nil {
+			info.Skipped = err.Error()
+			return nil
+		}
+	}
+	defer refused.Close()
+	var fronts []*kit.UDPFront
+	var clients []*kit.UDPPeer
+	defer func() {
+		for _, cl := range clients {
+			cl.Close()
+		}
+		for _, f := range fronts {
+			f.Close(2 * time.Second)
+		}
+	}()
+	for i := 0; i < c.Listeners; i++ {
+		f, err := kit.ServeUDP("127.0.0.1", ph)
+		if err != nil {
+			info.Skipped = err.Error()
+			return nil
+		}
+		fronts = append(fronts, f)
+		cl, err := kit.NewUDPPeer("127.0.0.1", 0)
+		if err != nil {
+			info.Skipped = err.Error()
+			return nil
+		}
+		clients = append(clients, cl)
+	}
+	var wg sync.WaitGroup
+	for i := range fronts {
+		wg.Add(1)
+		go func(i int) {
+			defer wg.Done()
+			tgt, tag := allowed, "ALLOWED"
+			if i%2 == 1 {
+				tgt, tag = refused, "REFUSED"
+			}
+			addr := kit.SocksAddr(tgt.Addr.IP.String(), tgt.Addr.Port, false)
+			to := &net.UDPAddr{IP: net.IPv4(127, 0, 0, 1), Port: fronts[i].Addr.Port}
+			for n := 0; n < c.PerClient; n++ {
+				plain := append(append([]byte(nil), addr...), []byte(fmt.Sprintf("%s-%d-%d", tag, i, n))...)
+				clients[i].Send(kit.PackUDP(key, kit.DetBytes(c.Seed+int64(i)*1_000_003+int64(n), key.SaltSize()), plain), to)
+				if n%16 == 15 {
+					time.Sleep(150 * time.Microsecond)
+				}
+			}
+		}(i)
+	}
+	wg.Wait()
+	// let the loops drain what is queued
+	last := -1
+	kit.WaitFor(2*time.Second, func() bool {
+		q := allowed.Queued()
+		quiet := q == last
+		last = q
+		time.Sleep(20 * time.Millisecond)
+		return quiet
+	})
+	got := allowed.Drain()
+	info.Steps = c.Listeners * c.PerClient
+	if len(got) > 0 {
+		info.NonTrivial = true
+	}
+	if bad := refused.Drain(); len(bad) > 0 {
+		return kit.Violation("policy:shared-handler-leak", "%d datagrams reached %v, a destination the policy refuses (first: %q from %v); %d listeners share one packet handler and only odd-numbered clients named that destination, which must be refused on every listener", len(bad), refused.Addr, bad[0].Data, bad[0].From, c.Listeners)
+	}
+	for _, d := range got {
+		if !bytes.HasPrefix(d.Data, []byte("ALLOWED-")) {
+			return kit.Violation("policy:shared-handler-misroute", "the allowed destination %v received %q, which no client sent to it", allowed.Addr, d.Data)
+		}
+	}
+	return nil
+}
+
+func TestC05_Shared(t *testing.T) {
+	p := kit.Prop[C05Shared]{ID: "C05", Name: "Shared", Quick: 40, Thorough: 3000, Gen: genC05Shared, Run: runC05Shared}
 	p.Execute(t)
 }
